@@ -215,9 +215,10 @@ def program (c : Cfg) (rq : Req) : List Act :=
   match rq.kind with
   | .put => [.wstat, .opentmp] ++ setProg rq.w.attrs ++ publishProg c.strat
   | .copy => [.wstat, .opentmp] ++ setProg rq.w.attrs ++ publishProg c.strat ++ [.cstat]
-  -- CompleteMultipartUpload: parts are copied into the temp file, the content headers of the upload
-  -- are stored, THEN the key is stat'ed, then user metadata and the ETag are stored
-  | .mpu => [.opentmp] ++ setProg (rq.w.attrs.filter (·.1.isHdr)) ++ [.wstat] ++ setProg (rq.w.attrs.filter (!·.1.isHdr))
+  -- CompleteMultipartUpload: parts are copied into the temp file, the key is stat'ed (and, in a versioned
+  -- bucket, archived), THEN the content headers of the upload, user metadata, tags and the ETag are stored
+  -- (since c0bb5f7 / its follow-up; before, the content headers were stored ahead of the stat)
+  | .mpu => [.opentmp, .wstat] ++ setProg (rq.w.attrs.filter (·.1.isHdr)) ++ setProg (rq.w.attrs.filter (!·.1.isHdr))
             ++ publishProg c.strat
   | .delete => [.dstat, .dunlink]
   | .get => match c.rmode with
